@@ -1,5 +1,8 @@
 """gen.py -- shared generators and protocol encoders for graphs, walks, messages, tables.
 Everything is driven by the random.Random instance handed in, so a case replays exactly."""
+import os
+import zlib
+
 import numpy as np
 
 import dsw
@@ -44,6 +47,17 @@ def acc_array(rows, reuse=False):
     or the history of the array object (stale memo / cache keyed by id())."""
     a = np.array(rows, dtype=int).reshape(-1, 4)
     if not reuse:
+        # the MEMORY LAYOUT of an argument must not matter either: a share of the accessors (chosen by their content, so that a
+        # replay builds the same object) is handed over column-major, or as a strided view of a wider table -- equal values,
+        # equal shape and dtype, but ravel() / reshape() / ascontiguousarray() of them copy instead of aliasing
+        if os.environ.get("VERIF_LAYOUT", "1") != "0" and a.size:
+            h = zlib.crc32(a.tobytes()) % 8
+            if h == 0:
+                return np.asfortranarray(a)
+            if h == 1:
+                wide = np.zeros((a.shape[0], 8), dtype=int)
+                wide[:, ::2] = a
+                return wide[:, ::2]
         return a
     buf = _BUFFERS.get(a.shape)
     if buf is None:
